@@ -2,7 +2,7 @@ SPECIFICATION Spec
 CONSTANTS
   Sids = {1,2}
   Threads = {1,2}
-  Deadlines = {0,1,3}
+  Deadlines = {1,2}
   MaxNow = 2
   MaxSaves = 2
   Backend = "memory"
@@ -11,5 +11,5 @@ CONSTANTS
   GcBatch = 1
   Bug = "none"
 CONSTRAINT Bounded
-INVARIANTS TypeOK LoadCorrect LoadExactSeq LiveKept HeldSound IndexConsistent
+INVARIANTS TypeOK LoadCorrect LiveKept HeldSound IndexConsistent
 PROPERTIES MemGcProgress FileGcComplete OnlyExpiredVanish
